@@ -477,7 +477,7 @@ def slot_reinit(ctx, db):
                 a0_ = (it.get('args') or [{}])[0].get('path') or ''
                 if re.fullmatch(r'local:\w+(#\d+)?', a0_):
                     d_ = next((x for x in reversed(tr[:n_]) if x.k == 'decl' and x.get('var') == a0_), None)
-                    if d_ is not None and d_.get('init') == '{...}' and not d_.get('ref') and not d_.get('ptr') and 'subreg_t' in (d_.get('type') or '') and \
+                    if d_ is not None and re.fullmatch(r'\{.*,.*\}', d_.get('init') or '') and not d_.get('ref') and not d_.get('ptr') and 'subreg_t' in (d_.get('type') or '') and \
                             not any(x.k == 'call' and x.get('recv') == a0_ and norm(x.get('callee') or '').endswith('::operator=') for x in tr[:n_]):
                         written = set(fields)
         missing = fields - written
